@@ -16,8 +16,12 @@ for p in mutants/*${pat}*.patch; do
   if ! (cd $WT && go build ./... >/dev/null 2>&1); then echo "$(basename $p): DOES-NOT-BUILD"; continue; fi
   PD=$(mktemp -d)
   for f in $(git -C $WT diff --name-only; git -C $WT diff --cached --name-only); do mkdir -p $PD/$(dirname $f); cp $WT/$f $PD/$f; done
-  o=$(VERIF_PATCH_DIR=$PD ./check $id quick 2>&1); rc=$?
-  sigs=$(ls replays/$id 2>/dev/null | wc -l)
-  echo "$(basename $p): exit=$rc $(echo "$o" | grep -c '^VIOLATION') violation line(s)"
-  rm -rf $PD replays/$id
+  # checks to run: the property's own, unless mutants/CHECKS.map names others for this patch
+  ids=$(grep "^$(basename $p) " mutants/CHECKS.map 2>/dev/null | cut -d' ' -f2-)
+  for cid in ${ids:-$id}; do
+    o=$(VERIF_PATCH_DIR=$PD ./check $cid quick 2>&1); rc=$?
+    echo "$(basename $p): check=$cid exit=$rc $(echo "$o" | grep -c '^VIOLATION') violation line(s) $( [ $rc = 2 ] && echo "$o" | grep -m1 'infrastructure' | cut -c1-200)"
+    rm -rf replays/$cid
+  done
+  rm -rf $PD
 done
